@@ -60,6 +60,21 @@ ROUND_TEXT = {
         "part and wrong for the translation part, right for the scalar part and wrong for the vector part, right for the "
         "first and wrong for a later value of a sequence, right in 3D and wrong in 2D; (5) the exception contract -- the "
         "property says 'raises' or names an exception type: make it return, or raise another type, for one class of inputs."),
+    8: ("This is an EIGHTH round.  Earlier rounds already produced slips in the main lines and in the rarely reached arms of the "
+        "anchored functions, option threading, sequence arms, in-place edits, caches and history dependence (id()-keyed memos, "
+        "module-level buffers, leaked NumPy state), dtype and element-type handling, unusual argument objects, accuracy bands, "
+        "hemisphere / convention mismatches between two routes, partial application (rotation vs translation, 3D vs 2D), and "
+        "exception contracts.  Find something those do not cover.  Suggestions: (1) SHORTCUTS FOR DEGENERATE BUT LEGAL INPUTS -- "
+        "an early return or fast path for identity rotation, zero translation, theta = 0, s = 0 or 1, n = 0 or +-1, unit scale, "
+        "an axis-aligned direction, a sequence of length 1, an empty (length-0) object, equal operands -- that returns the "
+        "wrong class / shape / length / sign / an alias of its argument, or skips a check the property requires; "
+        "(2) the LEAST VISITED parts named by the anchors: the 2D family (SO2, SE2, Twist2, trot2 / trexp2 / trlog2 / trinterp2), "
+        "DualQuaternion / UnitDualQuaternion, Plane, SpatialInertia, the Rand / Alloc / Empty constructors and their arguments; "
+        "(3) the NUMPY PROTOCOL -- what happens when library objects meet NumPy functions or containers (np.array(obj), obj in a "
+        "list passed to np.stack, comparison results used as masks, broadcasting of an (N,1) against (N,)), where a refactor to "
+        "'vectorise' silently changes shape or pairing; (4) a change that is only wrong for a multi-valued object whose values "
+        "are NOT all of the same kind (one identity among rotations, one prismatic among revolute twists, one pure among general "
+        "quaternions); (5) off-by-one and boundary slips in comparisons (< vs <=, >= vs >) exactly at a documented boundary value."),
 }
 
 HUNT_TEXT = '''ALSO, BEFORE the mutants (about a third of your effort): hunt for inputs for which the UNMODIFIED tree already violates the property.  Read the statement and the quantifier literally and probe its corners systematically with small scripts: every class and call form it names, the extremes of the stated ranges, exact special values, multi-valued objects, every option value, both units, documented aliases, sequences of operations on one object.  Write what you find to {wt}/bughunt.md: for each violation a two-line reproduction, the value obtained and the value the property requires; if you find none, list briefly what you covered.  Do not fix anything.
